@@ -7,6 +7,10 @@
 //   noisefree  (release the heap-layout noise blocks, see below)
 //   add <pt> | addv <k> <pt>*k | rm <pt> | clear | size | list
 //   nst <pt> | nk <pt> <k> | nr <pt> <r> | sorted (reportsSortedResults) | setdist <metric> (same dimension)
+//   kc <k> <rows> <cols> <n> <pt>*n   (any kind; k >= 1): GreedyKCenters<P>::kcenters(data, k, centers, dists) called
+//      directly with a caller matrix `dists(rows, cols)` pre-filled with -7; answer (no `| sz=` part):
+//      u=<u64 draw of the first centre> c=<centres> dims=<rows>x<cols after> resized=<0|1>
+//      m=<dists(j,i) for j < n, i < centers.size(); rows separated by `;`> untouched=<cells still -7 | na if resized>
 //
 // <pt> is one integer for abs1/table6 and two for l1/linf.  All metrics are integer valued, so the
 // doubles the code computes are exact and are printed as integers.
@@ -192,7 +196,9 @@ int main()
         else nn.reset(gnatn = new GnatN(deg, mn, mx, leaf, cache, rebal != 0));
     }
     else { std::cout << "bad-header\n"; return 2; }
+    if (!gnat && !gnatn && kv.count("seed")) ompl::RNG::setSeed((std::uint_fast32_t)(num("seed", 0) + 1));
     nn->setDistanceFunction(df);
+    std::unique_ptr<ompl::GreedyKCenters<P>> kcsel;
 
     // heap-layout noise (header `noise=1`): blocks of the sizes the GNAT allocates (nodes, leaf buffers) are
     // allocated up front; the op `noisefree` releases them, so that (with the allocator in reuse mode) later
@@ -364,6 +370,50 @@ int main()
             prefill(nbh);
             nn->nearestR(p, (double)*vp::parseInt(t[i]), nbh);
             fin(answer(p, nbh));
+        }
+        else if (op == "kc" && t.size() >= 5)
+        {
+            auto k = vp::parseNat(t[1]), rows = vp::parseNat(t[2]), cols = vp::parseNat(t[3]), n = vp::parseNat(t[4]);
+            std::vector<P> ps;
+            bool ok = k && rows && cols && n && *k >= 1 && *n >= 1 && *rows <= 4096 && *cols <= 4096;
+            i = 5;
+            if (ok)
+                for (size_t j = 0; j < *n; ++j)
+                {
+                    if (!pt(t, i, p)) { ok = false; break; }
+                    ps.push_back(p);
+                }
+            if (!ok || i != t.size()) { std::cout << "bad-op\n"; continue; }
+            if (!kcsel) kcsel.reset(new ompl::GreedyKCenters<P>());
+            kcsel->setDistanceFunction(df);
+            ompl::GreedyKCenters<P>::Matrix dists((Eigen::Index)*rows, (Eigen::Index)*cols);
+            dists.setConstant(-7.0);
+            std::vector<unsigned int> centers{77u, 78u};      // must be cleared by the callee
+            std::mt19937 gen = kcsel->rng_.generator_;
+            kcsel->kcenters(ps, (unsigned int)*k, centers, dists);
+            std::uniform_real_distribution<> uni(0, 1);
+            std::vector<double> us;
+            while (!(gen == kcsel->rng_.generator_) && us.size() < 1000) us.push_back(uni(gen));
+            std::string s = "u=" + (us.size() == 1 ? vp::bits(us[0]) : "?" + std::to_string(us.size()));
+            s += " c=";
+            for (size_t a = 0; a < centers.size(); ++a) s += (a ? "," : "") + std::to_string(centers[a]);
+            bool resized = (size_t)dists.rows() != *rows || (size_t)dists.cols() != *cols;
+            s += " dims=" + std::to_string(dists.rows()) + "x" + std::to_string(dists.cols());
+            s += std::string(" resized=") + (resized ? "1" : "0") + " m=";
+            bool inside = (size_t)dists.rows() >= ps.size() && (size_t)dists.cols() >= centers.size();
+            for (size_t j = 0; j < ps.size() && inside; ++j)
+            {
+                if (j) s += ";";
+                for (size_t a = 0; a < centers.size(); ++a)
+                    s += (a ? "," : "") + (dists(j, a) == -7.0 ? std::string("u") : numStr(dists(j, a)));
+            }
+            if (!inside) s += "matrix-too-small";
+            size_t untouched = 0;
+            for (Eigen::Index a = 0; a < dists.rows() && !resized; ++a)      // a resized matrix is uninitialised
+                for (Eigen::Index b = 0; b < dists.cols(); ++b)
+                    if (dists(a, b) == -7.0) ++untouched;
+            s += " untouched=" + (resized ? std::string("na") : std::to_string(untouched));
+            std::cout << s << "\n";
         }
         else
             std::cout << "bad-op\n";
